@@ -466,10 +466,16 @@ std::string vh::execute(toks_t& toks, std::string& aug)
     const auto tlog   = steps_from_log(stream.str(), parsed);
     const auto nev    = log->size();
 
+    // reconstruction t = (x - x0).d / (d.d), with d scaled by its largest component so that d.d cannot overflow
+    scalar_t dmax = 0;
+    for (tensor_size_t i = 0; i < n; ++i)
+    {
+        dmax = std::max(dmax, std::fabs(d(i)));
+    }
     scalar_t dd = 0;
     for (tensor_size_t i = 0; i < n; ++i)
     {
-        dd += d(i) * d(i);
+        dd += (d(i) / dmax) * (d(i) / dmax);
     }
     std::vector<double> trec(nev), ttol(nev);
     for (size_t k = 0; k < nev; ++k)
@@ -478,11 +484,11 @@ std::string vh::execute(toks_t& toks, std::string& aug)
         scalar_t    num = 0, mag = 0;
         for (tensor_size_t i = 0; i < n; ++i)
         {
-            num += (x(i) - x0(i)) * d(i);
-            mag += (std::fabs(x(i)) + std::fabs(x0(i))) * std::fabs(d(i));
+            num += (x(i) - x0(i)) * (d(i) / dmax);
+            mag += (std::fabs(x(i)) + std::fabs(x0(i))) * std::fabs(d(i) / dmax);
         }
-        trec[k] = num / dd;
-        ttol[k] = 64.0 * std::numeric_limits<scalar_t>::epsilon() * (mag / dd + std::fabs(trec[k]));
+        trec[k] = num / dd / dmax;
+        ttol[k] = 64.0 * std::numeric_limits<scalar_t>::epsilon() * (mag / dd / dmax + std::fabs(trec[k]));
     }
     bool tsource = parsed && tlog.size() == nev;
     if (tsource)
